@@ -605,6 +605,10 @@ class Interp:
         if isinstance(c, Stub):
             py = {"builtins.int": int, "builtins.str": str, "builtins.tuple": tuple, "builtins.list": list,
                   "builtins.dict": dict, "builtins.set": set, "builtins.bool": bool}.get(c.name)
+            if py is None and c.name.startswith("builtins."):
+                import builtins as _b
+                cand = getattr(_b, c.name.split(".", 1)[1], None)
+                py = cand if isinstance(cand, type) else None
             if py is not None:
                 return isinstance(v, py) and not isinstance(v, Obj)
             return False
